@@ -313,15 +313,17 @@ def run_workers(case, ctx):
         specs.append(dict(dtype=dt, shape=rng.choice([[7], [3, 4], [2, 3, 4], [33], [600], [40, 50], [0], []]),
                           layout=rng.choice(["C", "F", "sliced", "transposed", "offset-view"]),
                           max_nbytes=rng.choice(["none", "size-1", "size", "size+1", "1K", "0"]),
+                          mutate_between_calls=rng.random() < 0.3,
                           memmap_backed=rng.random() < 0.4, mm_offset=rng.choice([0, 16, 64, 4096]), mm_slice=rng.random() < 0.5,
                           mm_view=rng.choice([None, None, "T", "rev", "rev-last", "step", "inner", "swap", "plain-ndarray", "plain-ndarray-T", "rev-all", "newaxis"]),
                           mmap_mode=rng.choice(["r", "r", "c", "r+", "w+"])))
-    views = ["T", "rev", "rev-last", "step", "inner", "swap", "plain-ndarray", "plain-ndarray-T", "rev-all", "newaxis"]
+    views = ["T", "rev", "rev-last", "step", "inner", "swap", "plain-ndarray", "plain-ndarray-T", "rev-all", "newaxis", "as-other-dtype", "as-swapped-dtype", "as-bytes"]
     for j in range(4):
         # views of file-backed arrays with at least two dimensions: every kind of view comes up in every few cases
         specs.append(dict(dtype=gen_np.pick_dtype(rng, allow_object=False), shape=rng.choice([[3, 4], [2, 3, 4], [40, 50], [5, 1], [4, 4]]),
                           layout=rng.choice(["C", "F"]), max_nbytes=rng.choice(["none", "size+1", "1K", "0"]), memmap_backed=True,
                           mm_offset=rng.choice([0, 16, 64, 4096]), mm_slice=rng.random() < 0.3, mm_view=views[(case["i"] * 4 + j) % len(views)],
+                          mm_private_write=rng.random() < 0.25,
                           mmap_mode=rng.choice(["r", "c", "r+", "w+"])))
     d = harness.mkscratch("vjl-c19w-")
     try:
@@ -339,9 +341,13 @@ def run_workers(case, ctx):
             ctx.count("worker_runs")
             if spec.get("memmap_backed") and spec.get("mm_view") and run["size"]:
                 ctx.count("worker_runs_with_a_view_of_a_file_backed_array")
+            if spec.get("memmap_backed") and spec.get("mm_private_write") and run["size"]:
+                ctx.count("worker_runs_with_a_privately_modified_copy_on_write_mapping")
             if "exc" in run:
                 ctx.violation("workers:raises", f"Parallel with an array argument raised {run['exc']}; {desc}", desc)
                 continue
+            if spec.get("second_call_after_in_place_change"):
+                ctx.count("second_calls_after_an_in_place_change_checked")
             for g in run["got"]:
                 w = run["want"]
                 if g["memmap"] or g["base_memmap"]:
@@ -358,7 +364,8 @@ def run_workers(case, ctx):
                     ctx.violation(f"workers:{bad}", f"task saw {bad} {g['desc'][bad]} but the parent passed {w['desc'][bad]} (memmapped={mm}); {desc}", desc)
                 else:
                     if g["digest"] != w["digest"]:
-                        ctx.violation("workers:values", f"task saw different values (first {g['first']}) than the parent passed (memmapped={g['memmap']}); {desc}", desc)
+                        ctx.violation("workers:values:private-changes-of-a-copy-on-write-mapping" if spec.get("mm_private_write") else
+                                      ("workers:values:stale-dump-after-in-place-change" if spec.get("second_call_after_in_place_change") and mm else "workers:values"), f"task saw different values (first {g['first']}) than the parent passed (memmapped={g['memmap']}); {desc}", desc)
             if run["size"]:
                 ctx.sig((backend, json.dumps(spec, sort_keys=True)))
     finally:
